@@ -27,7 +27,8 @@ B. GeneralSFTPFile on top of it ("sftpfile/..." roots): a handle opened FXF_READ
    point for such an overtaken read (and OverwriteableFileConsumer.read's contract forbids overwrites
    until its Deferred fires), so its answer is accepted if it equals the reference after SOME prefix
    of the client events issued while it was unanswered (an error answer: if some prefix makes the
-   range empty or shorter); accepted answers that differ from the issue-time reference are counted
+   range empty or shorter; a data answer may also be a prefix of such a reference whose length is
+   that of another candidate: length clipped at issue time, bytes taken later); accepted answers that differ from the issue-time reference are counted
    (coverage key pipelined_overtakes_counted).  Bytes matching NO linearisation point are a violation
    ("pipelined:...-no-linearisation").
 
@@ -345,9 +346,15 @@ class ConsumerWorld(object):
             self.bad("pipelined:read-fails:%s" % type(val.value).__name__,
                      "%s failed with %r although no linearisation point makes its range empty or shorter; candidates %r" % (what, detail, cands))
             return
-        if val in [c for c in cands if c is not None]:
+        real = [c for c in cands if c is not None]
+        if val in real:
             if val != rec.want:
                 self.novertakes += 1
+            return
+        # the length of the answer may have been fixed (clipped to the then current size) at one point and the
+        # bytes taken at a later one: a short read of a later linearisation point -- legal for an overtaken read
+        if val and len(val) in [len(c) for c in real] and any(c[:len(val)] == val for c in real):
+            self.novertakes += 1
             return
         ref = next((c for c in cands if c is not None), b"")
         self.bad("pipelined:read:" + diff_kind(val, ref, self.orig) + "-no-linearisation",
